@@ -153,9 +153,10 @@ pub fn gdbus_parse_color(raw: String) -> Result<String, &'static str> {
         .map(|v| v.trim().parse::<f64>())
         .collect::<Result<Vec<_>, _>>()
         .map_err(|_| PARSE_ERROR)?;
-    // a component that is not a finite number is not a color either (`f64::from_str` accepts
-    // "inf" and "nan"): report the reply instead of passing on a string made from it
-    if rgb.len() != 3 || rgb.iter().any(|v| !v.is_finite()) {
+    // a component that is not a finite percentage is not a color either (`f64::from_str` accepts
+    // "inf" and "nan", and 1e307 overflows when scaled): report the reply instead of passing on a
+    // string made from it
+    if rgb.len() != 3 || rgb.iter().any(|v| !(v * 100.).is_finite()) {
         return Err(PARSE_ERROR);
     }
     Ok(format!(
